@@ -4,8 +4,140 @@ import DswModel.Tie.SpiderwebDefs
 # DswModel.Tie.NpLemmas — lemmas about the NumPy part of the Python fragment
 (arrays, `npWhere`, `npArgsort`, `npSum`, `npArray`, `npZeros`, `npIndex2`, broadcasting, and the
 embeddings `accPV`, `tblPV`, `bitsPV` of `SpiderwebDefs`), shared by the ties of dsw/spiderweb.py.
+
+* §1 arrays as sequences: `pyIter`, `pyLen`, `pyIndex`, slices, `pySetItem` on `.arr`;
+* §2 integer arrays: `mapM asInt?`, `npSum`, `npArgsort`, `npArray`, `npZeros`, `bitsPV`;
+* §3 broadcasting: `arrZip`, `npSub`/`npAdd`/`npMul`, `npCmp` (scalars, array–array, array–scalar);
+* §4 `trueIdx` / `npWhere` (recursive form, `List.filter` form, first match = `List.idxOf`);
+* §5 accessors and tables: `rowPV`, `accPV`, `Acc.row`/`Acc.ent`/`Acc.live` under `Acc.WF`, `npIndex2`,
+  `Tbl.keys`, the idiom `where(accessor[v] >= 0)[0]`;
+* §6 `None` tests, nucleotide columns (`pyIn`/`pyIndexOf` on lists of one-letter strings, `livePos`),
+  `pyPow`.
+
+Conventions as in `PyLemmas`: `@[simp]` lemmas compute on constructor-headed arguments; lemmas with
+side conditions are for `rw` / `simp only [lemma h]`.  A list of integers is embedded as
+`l.map PV.int`, a list of naturals as `l.map fun (n : Nat) => PV.int (n : Int)` (the form `natsPV` and
+`bitsPV` use); `map_natCast_int` converts.
 -/
 namespace Dsw.Tie
 open Dsw Dsw.Py
+
+/-! ## §1 arrays as sequences -/
+
+@[simp] theorem asInt?_arr (l : List PV) : (PV.arr l).asInt? = Option.none := rfl
+@[simp] theorem truthy_arr (l : List PV) : (PV.arr l).truthy = !l.isEmpty := rfl
+@[simp] theorem getVar_arr (l : List PV) : getVar (.arr l) = .ok (.arr l) := rfl
+@[simp] theorem eqb_arr (a b : List PV) : PV.eqb (.arr a) (.arr b) = PV.eqbList a b := by simp [PV.eqb]
+
+@[simp] theorem pyIter_arr (l : List PV) : pyIter (.arr l) = .ok l := rfl
+@[simp] theorem pyList_arr (l : List PV) : pyList (.arr l) = .ok (.list l) := rfl
+@[simp] theorem pyLen_arr (l : List PV) : pyLen (.arr l) = .ok (.int l.length) := rfl
+@[simp] theorem pyMap_arr (f : PV → RV) (l : List PV) : pyMap f (.arr l) = (mapM' f l).map .list := rfl
+@[simp] theorem pyEnumerate_arr (l : List PV) : pyEnumerate (.arr l) = .ok (.list (enumFrom 0 l)) := rfl
+@[simp] theorem pyReverse_arr (l : List PV) : pyReverse (.arr l) = .ok (.arr l.reverse) := rfl
+theorem pyUnpack_arr {n : Nat} {l : List PV} (h : l.length = n) : pyUnpack n (.arr l) = .ok l := by
+  simp [pyUnpack, h]
+theorem pyMap_arr_eq {f : PV → RV} {g : PV → PV} {l : List PV} (h : ∀ x ∈ l, f x = .ok (g x)) :
+    pyMap f (.arr l) = .ok (.list (l.map g)) := by simp [mapM'_eq_map h]
+theorem pyMap_arr_map {α} {f : PV → RV} {emb : α → PV} {g : α → PV} {l : List α}
+    (h : ∀ a ∈ l, f (emb a) = .ok (g a)) : pyMap f (.arr (l.map emb)) = .ok (.list (l.map g)) := by
+  simp [mapM'_map h]
+
+/-! ### subscripts -/
+
+theorem pyIndex_arr_nat {l : List PV} {i : Nat} (h : i < l.length) :
+    pyIndex (.arr l) (.int i) = .ok l[i] := by
+  simp [pyIndex, normIndex_natCast h, List.getD_eq_getElem?_getD, List.getElem?_eq_getElem h]
+theorem pyIndex_arr_getD {l : List PV} {i : Nat} (h : i < l.length) :
+    pyIndex (.arr l) (.int i) = .ok (l.getD i .none) := by
+  simp [pyIndex, normIndex_natCast h]
+/-- index given as a non-negative `Int`. -/
+theorem pyIndex_arr_int {l : List PV} {i : Int} (h0 : 0 ≤ i) (h : i < l.length) :
+    pyIndex (.arr l) (.int i) = .ok (l.getD i.toNat .none) := by
+  simp [pyIndex, normIndex_of_nonneg h0 h]
+theorem pyIndex_arr_of_ge {l : List PV} {i : Int} (h : (l.length : Int) ≤ i) :
+    pyIndex (.arr l) (.int i) = .error .indexError := by
+  simp [pyIndex, normIndex_of_ge h]
+/-- a negative index `-k`, `1 ≤ k ≤ len`. -/
+theorem pyIndex_arr_neg {l : List PV} {k : Nat} (h0 : 0 < k) (h : k ≤ l.length) :
+    pyIndex (.arr l) (.int (-(k : Int))) = .ok (l.getD (l.length - k) .none) := by
+  simp [pyIndex, normIndex_neg h0 h]
+@[simp] theorem pyIndex_arr_cons_zero (x : PV) (xs : List PV) : pyIndex (.arr (x :: xs)) (.int 0) = .ok x :=
+  pyIndex_arr_nat (l := x :: xs) (i := 0) (by simp)
+@[simp] theorem pyIndex_arr_nil (i : Int) : pyIndex (.arr []) (.int i) = .error .indexError := by
+  simp [pyIndex, normIndex_nil]
+/-- a non-integer subscript. -/
+@[simp] theorem pyIndex_arr_arr (l js : List PV) : pyIndex (.arr l) (.arr js) = .error .typeError := rfl
+/-- `arr[i]` is decided by `normIndex` alone. -/
+theorem pyIndex_arr_eq (l : List PV) (i : Int) :
+    pyIndex (.arr l) (.int i) = match normIndex l.length i with
+                                | some j => .ok (l.getD j .none)
+                                | Option.none => .error .indexError := rfl
+
+/-- `normIndex` in closed form. -/
+theorem normIndex_eq (n : Nat) (i : Int) :
+    normIndex n i = if -(n : Int) ≤ i ∧ i < n then some (if i < 0 then i + n else i).toNat else Option.none := by
+  unfold normIndex
+  by_cases hi : i < 0
+  · by_cases h : -(n : Int) ≤ i
+    · have h1 : 0 ≤ i + n ∧ i + n < n := by omega
+      have h2 : -(n : Int) ≤ i ∧ i < n := by omega
+      simp only [hi, if_true, h1, h2, and_self]
+    · have h1 : ¬ (0 ≤ i + n ∧ i + n < n) := by omega
+      have h2 : ¬ (-(n : Int) ≤ i ∧ i < n) := by omega
+      simp only [hi, if_true, h1, h2, if_false]
+  · by_cases h : i < n
+    · have h1 : 0 ≤ i ∧ i < n := by omega
+      have h2 : -(n : Int) ≤ i ∧ i < n := by omega
+      simp only [hi, if_false, h1, h2, and_self, if_true]
+    · have h1 : ¬ (0 ≤ i ∧ i < n) := by omega
+      have h2 : ¬ (-(n : Int) ≤ i ∧ i < n) := by omega
+      simp only [hi, if_false, h1, h2]
+
+/-! ### slices -/
+
+@[simp] theorem pySliceV_arr_from (l : List PV) (a : Nat) :
+    pySliceV (.arr l) (.int a) .none = .ok (.arr (l.drop a)) := by
+  simp [pySliceV, pySlice_from]
+@[simp] theorem pySliceV_arr_to (l : List PV) (b : Nat) :
+    pySliceV (.arr l) .none (.int b) = .ok (.arr (l.take b)) := by
+  simp [pySliceV, pySlice_to]
+@[simp] theorem pySliceV_arr_nat (l : List PV) (a b : Nat) :
+    pySliceV (.arr l) (.int a) (.int b) = .ok (.arr ((l.drop a).take (b - a))) := by
+  simp [pySliceV, pySlice_nat]
+/-- `x[1:]` with the literal `1`. -/
+@[simp] theorem pySliceV_arr_from_one (l : List PV) :
+    pySliceV (.arr l) (.int 1) .none = .ok (.arr l.tail) := by
+  simpa using pySliceV_arr_from l 1
+@[simp] theorem pySliceV_arr_from_zero (l : List PV) :
+    pySliceV (.arr l) (.int 0) .none = .ok (.arr l) := by
+  simpa using pySliceV_arr_from l 0
+/-- `l[:-1]`. -/
+theorem pySlice_to_neg_one {α} (l : List α) : pySlice l 0 (-1) = l.dropLast := by
+  have h : pyNorm l.length (-1) = l.length - 1 := pyNorm_neg (n := l.length) (k := 1) (by omega)
+  simp only [pySlice, pyNorm_zero, h, List.drop_zero, Nat.sub_zero, List.dropLast_eq_take]
+/-- `x[:-1]` with the literal `-1`. -/
+@[simp] theorem pySliceV_arr_to_neg_one (l : List PV) :
+    pySliceV (.arr l) .none (.int (-1)) = .ok (.arr l.dropLast) := by
+  simp [pySliceV, pySlice_to_neg_one]
+@[simp] theorem pySliceV_list_to_neg_one (l : List PV) :
+    pySliceV (.list l) .none (.int (-1)) = .ok (.list l.dropLast) := by
+  simp [pySliceV, pySlice_to_neg_one]
+@[simp] theorem pySliceV_str_to_neg_one (s : List Char) :
+    pySliceV (.str s) .none (.int (-1)) = .ok (.str s.dropLast) := by
+  simp [pySliceV, pySlice_to_neg_one]
+
+/-! ### item assignment (integer arrays) -/
+
+theorem pySetItem_arr_nat {l : List PV} {i : Nat} (h : i < l.length) (x : Int) :
+    pySetItem (.arr l) (.int i) (.int x) = .ok (.arr (l.set i (.int x))) := by
+  simp [pySetItem, normIndex_natCast h]
+theorem pySetItem_arr_int {l : List PV} {i : Int} (h0 : 0 ≤ i) (h : i < l.length) (x : Int) :
+    pySetItem (.arr l) (.int i) (.int x) = .ok (.arr (l.set i.toNat (.int x))) := by
+  simp [pySetItem, normIndex_of_nonneg h0 h]
+/-- assignment past the end (`IndexError`), whatever the value. -/
+theorem pySetItem_arr_of_ge {l : List PV} {i : Int} (h : (l.length : Int) ≤ i) (x : PV) :
+    pySetItem (.arr l) (.int i) x = .error .indexError := by
+  simp only [pySetItem, asInt?_int, normIndex_of_ge h]
 
 end Dsw.Tie
